@@ -49,7 +49,9 @@ RULE = ("scripts of 3-14 records (ids 0..; byte lengths 0..1.5*maxSize resp. 0..
         "scripted boundary date; every third case submits the records through the logx writer front-end instead "
         "(concreteWriter.Info on the RotateLogger as newFileWriter wires it, or NewWriter(rotateLogger); JSON and plain "
         "encodings) in bursts of 1-14 records while the writer goroutine is parked, and files are compared line by line with "
-        "the lines handed to RotateLogger.Write; 2 of 15 cases hold every compress phase (gated global logx writer: the "
+        "the lines handed to RotateLogger.Write; 2 of 15 cases put the log path behind a symbolic link (link to the real "
+        "file on another file system, dangling link, or symlinked log directory) on top of a randomly chosen other stream; "
+        "2 of 15 cases hold every compress phase (gated global logx writer: the "
         "compressor reports through logx before gzipping) until scripted points, so that later rotations and clean-ups "
         "overlap the compression of earlier backups; every sixth case logs through the public logx functions "
         "(Info/Infof/Error/Errorf/Slow/Stat -> global writer) under the size rule (maxSize 6-300 kB), plain (75%) or JSON, "
@@ -336,10 +338,21 @@ def _holdgz(rng, tier):
     return c
 
 
+def _symlink(rng, tier):
+    """the log path is a symbolic link to the real file (kept on another file system when there is one), possibly
+    dangling at start-up, or lies inside a symbolic link to the real directory; on top of any other stream"""
+    c = rng.choice([_one, _one, _restart, _holdgz, _front])(rng, tier)
+    has_cur = any(s["name"] == c["file"] for s in c["seeds"])
+    c["link"] = rng.choice(["file", "file", "dir"] if has_cur else ["file", "dangling", "dir", "dir"])
+    return c
+
+
 def generate(rng, tier, n):
     out = []
     for i in range(n):
-        if i % 15 in (1, 7):
+        if i % 15 in (8, 13):
+            out.append(_symlink(rng, tier))
+        elif i % 15 in (1, 7):
             out.append(_holdgz(rng, tier))
         elif i % 6 == 5:
             out.append(_public(rng, tier))
@@ -506,6 +519,8 @@ def bucket(case, obs):
         out.append("direct-write")
     if case.get("setup"):
         out.append("config-path:%s" % case["setup"]["rotation"])
+    if case.get("link"):
+        out.append("link:" + case["link"])
     if case.get("holdgz"):
         # largest number of rotated backups waiting for their compress phase at the same time
         waiting = most = 0
